@@ -1,6 +1,7 @@
 import Gimli.Lemmas.Die
 import Gimli.Lemmas.DieForest
 import Gimli.Lemmas.Abbrev
+import Gimli.Lemmas.UnitHeader
 /-!
 # C02 — The DIE forest is reported exactly as encoded, by every navigation API
 
@@ -18,7 +19,7 @@ children flag and that the entry's attribute bytes are an encoding of the declar
 assignment, forest shape, attribute content and encoding parameters.
 -/
 namespace Gimli.Props.C02
-open Gimli Gimli.Attr Gimli.Abbrev Gimli.Die Gimli.Spec Gimli.Spec.Forest
+open Gimli Gimli.Attr Gimli.Abbrev Gimli.Die Gimli.Spec Gimli.Spec.Forest Gimli.Spec.Unit
 
 /-! ## (1) raw entry reading reports exactly the depth-first listing -/
 
@@ -136,5 +137,39 @@ theorem insert_get (t : Abbreviations) (a : Abbreviation) (h0 : a.code ≠ 0) :
       ∃ t', t.insert a = some t' ∧ ∀ c, t'.get c = if c = a.code then some a else t.get c) ∧
     ((t.get a.code).isSome → t.insert a = none) :=
   ⟨insert_some_of_get_none t a h0, insert_none_of_get_some t a h0⟩
+
+/-! ## (5) unit headers -/
+
+/-- **`header_roundtrip`.** For every valid header (DWARF 2–5, 32/64-bit format, every unit type,
+address size 1/2/4/8, either byte order) followed by any entries and any further input:
+`parse_unit_header` reports exactly the encoded unit length, format, version, address size,
+abbreviation offset, unit type with its signature / type offset / DWO id, the section and unit
+offset it was given; its entries buffer is exactly the entries and the input is left exactly
+behind the unit. -/
+theorem header_roundtrip (e : Endian) (sect : Sect) (off : Nat) (h : Header) (entries after : Bytes)
+    (hv : Valid h sect (unitLength e h entries)) :
+    parseUnitHeader e sect off (encodeUnit e h entries ++ after) =
+      .ok ({ enc := { endian := e, addressSize := h.addressSize, format := h.format, version := h.version },
+             unitLength := unitLength e h entries, unitType := h.unitType,
+             abbrevOffset := h.abbrevOffset, sect := sect, unitOffset := off, entriesBuf := entries },
+           after) :=
+  parseUnitHeader_rt e sect off h entries after hv
+
+/-- and the sizes it derives are the encoded ones: `header_size()` (from the buffer) and
+`size_of_header()` (from the fields) both equal the number of bytes before the entries, so the
+root entry sits at that unit offset and `length_including_self` is the length of the whole unit -/
+theorem header_sizes (e : Endian) (sect : Sect) (off : Nat) (h : Header) (entries : Bytes) :
+    let H : UnitHeader :=
+      { enc := { endian := e, addressSize := h.addressSize, format := h.format, version := h.version },
+        unitLength := unitLength e h entries, unitType := h.unitType,
+        abbrevOffset := h.abbrevOffset, sect := sect, unitOffset := off, entriesBuf := entries }
+    H.headerSize + entries.length = (encodeUnit e h entries).length ∧
+      H.sizeOfHeader = H.headerSize ∧ H.rootOffset = H.headerSize ∧
+      H.lengthIncludingSelf = (encodeUnit e h entries).length := by
+  cases hu : h.unitType <;>
+    simp only [UnitHeader.headerSize, UnitHeader.lengthIncludingSelf, UnitHeader.sizeOfHeader,
+      UnitHeader.rootOffset, Unit.encodeUnit, unitLength, List.length_append, encodeLength_length,
+      encodeBody_length, hu] <;>
+    refine ⟨by first | omega | trivial, by first | omega | trivial, trivial, by first | omega | trivial⟩
 
 end Gimli.Props.C02
